@@ -63,12 +63,13 @@ case "$ID" in
     exit $? ;;
 esac
 case "$ID" in
-  C10|C08|C01|C02|C03|C04|C05|C06|C07|C12)
+  C10|C08|C01|C02|C03|C04|C05|C06|C07|C11|C12)
     # sequential check + concurrent-callers phase: the code under check is instrumented and two threads
     # run it under the scheduler. If the tree cannot be instrumented the plain build runs (phase
     # recorded as not explored).
     INSOPT=""
     case "$ID" in
+      C11) FILES="prover/marshal.go prover" ;;
       C10|C08) FILES="prover/marshal.go prover/insertion_proving_system.go prover/deletion_proving_system.go" ;;
       C05) FILES="prover/poseidon/poseidon.go" ;;
       C07) FILES="prover/insertion_proving_system.go prover/deletion_proving_system.go prover" ;;
